@@ -104,9 +104,11 @@ func NewProcess(opts ...ProcOpts) *Process {
 
 func (p *Process) run() int {
 	if p.isState(types.ProcessStateTerminating) {
+		verifPoint(p, "run_checked", true)
 		return 0
 	}
 
+	verifPoint(p, "run_checked", false)
 	if err := p.validateProcess(); err != nil {
 		log.Error().Err(err).Msgf(`Failed to run command ["%v"] for process %s`, strings.Join(p.getCommand(), `" "`), p.getName())
 		p.onProcessEnd(types.ProcessStateError)
@@ -151,18 +153,23 @@ loop:
 		}
 
 		if !p.isRestartable() {
+			verifPoint(p, "restart_decision", false)
 			break
 		}
+		verifPoint(p, "restart_decision", true)
 		p.setState(types.ProcessStateRestarting)
 		p.procState.Restarts += 1
 		log.Info().Msgf("Restarting %s in %v second(s)... Restarts: %d",
 			p.getName(), p.getBackoff().Seconds(), p.procState.Restarts)
 
+		verifPoint(p, "backoff_wait")
 		select {
 		case <-p.procRunCtx.Done():
+			verifPoint(p, "backoff_cancelled")
 			log.Debug().Str("process", p.getName()).Msg("process stopped while waiting to restart")
 			break loop
 		case <-time.After(p.getBackoff()):
+			verifPoint(p, "backoff_elapsed")
 			p.handleInfo("\n")
 			continue
 		}
@@ -232,6 +239,9 @@ func (p *Process) getProcessStarter() func() error {
 }
 
 func (p *Process) getCommander() command.Commander {
+	if c := verifCommander(p); c != nil {
+		return c
+	}
 	if p.procConf.IsTty && !p.isMain {
 		return command.BuildPtyCommand(
 			p.procConf.Executable,
@@ -266,6 +276,9 @@ func (p *Process) getBackoff() time.Duration {
 	backoff := 1
 	if p.procConf.RestartPolicy.BackoffSeconds > backoff {
 		backoff = p.procConf.RestartPolicy.BackoffSeconds
+	}
+	if d, ok := verifBackoff(p, backoff); ok {
+		return d
 	}
 	return time.Duration(backoff) * time.Second
 }
@@ -375,15 +388,19 @@ func (p *Process) internalStop() error {
 }
 
 func (p *Process) stopProcess(cancelReadinessFuncs bool) error {
+	verifPoint(p, "stop_enter", cancelReadinessFuncs)
+	defer verifPoint(p, "stop_return")
 	p.runCancelFn()
 	if !p.isRunning() {
 		log.Debug().Msgf("process %s is in state %s not shutting down", p.getName(), p.getStatusName())
 		// prevent pending process from running
 		if p.isOneOfStates(types.ProcessStatePending) {
+			verifPoint(p, "stop_pending")
 			p.onProcessEnd(types.ProcessStateTerminating)
 		}
 		return nil
 	}
+	verifPoint(p, "stop_running")
 	p.setState(types.ProcessStateTerminating)
 	p.stopProbes()
 	if cancelReadinessFuncs {
@@ -453,6 +470,7 @@ func (p *Process) prepareForShutDown() {
 	// prevent restart during global shutdown or scale down
 	//p.procConf.RestartPolicy.Restart = types.RestartPolicyNo
 	p.isStopped.Store(true)
+	verifPoint(p, "no_restart")
 
 }
 
@@ -464,10 +482,13 @@ func (p *Process) onProcessStart() {
 	p.Lock()
 	p.started = true
 	p.Unlock()
+	verifPoint(p, "started")
 	close(p.procStartedChan)
 }
 
 func (p *Process) onProcessEnd(state string) {
+	verifPoint(p, "proc_end", state)
+	defer verifPoint(p, "proc_ended", state)
 	if isStringDefined(p.procConf.LogLocation) {
 		p.logger.Close()
 	}
@@ -615,6 +636,7 @@ func (p *Process) handleOutput(pipe io.ReadCloser, output string, handler func(m
 			break
 		}
 		if p.procConf.ReadyLogLine != "" && p.procState.Health == types.ProcessHealthUnknown && strings.Contains(line, p.procConf.ReadyLogLine) {
+			verifPoint(p, "log_ready")
 			p.procState.Health = types.ProcessHealthReady
 			p.readyLogCancelFn(nil)
 		}
@@ -720,6 +742,7 @@ func (p *Process) setStateAndRun(state string, runnable func() error) error {
 }
 
 func (p *Process) onStateChange(state string) {
+	verifPoint(p, "state", state)
 	switch state {
 	case types.ProcessStateSkipped:
 		p.setExitCode(1)
